@@ -6,8 +6,8 @@ Reads the *source text* (by AST; nothing is imported or executed) of
   gscrib/enums/types/direction.py      Direction.enforce, Direction.full_turn
   gscrib/geometry/point.py             Point.__add__, Point.__sub__            (on resolved points)
   gscrib/gcode_core.py                 GCodeCore.to_absolute, to_absolute_list, to_distance_mode
-  gscrib/geometry/tracer.py            PathTracer._filter_segments, estimate_length, parametric, arc, circle, helix,
-                                       thread, spiral
+  gscrib/geometry/tracer.py            PathTracer._filter_segments, estimate_length, parametric, polyline, arc, arc_radius,
+                                       circle, helix, thread, spiral, spline   (every method of the class)
 
 and writes each as a Lean function that follows the source statement by statement, generic over a scalar type `K`
 and the record `Trig K` of `Model/Tracer.lean` (so the same text is proved about at every `K` and executed at
@@ -25,24 +25,39 @@ What a translated function is
                                                `self._g.distance_mode.is_relative`, `self._g.position`, `self._g.state.resolution`
   * a method that can `raise` returns `Option …` (`none` = the exception; only `ValueError` occurs);
   * a method whose last statement is the call `self.parametric(f, length, **kwargs)` / `self.arc(…)` / `self.helix(…)`
-    is written twice: `m_args` stops at that call and returns what is handed to the final `self.parametric` (the
-    set-up arithmetic: the path function and its length), `m` performs the call (the vertices handed to `move`);
-  * `parametric` returns the list `points` its final loop walks; that loop must be, literally,
-    `for point in (Point(*t) for t in points): point = self._g.to_distance_mode(point); self._g.move(point, **kwargs)`
-    (`GCodeCore.move` is hand-modelled, see C01/C11) - anything else is refused.
+    is written three times: `m_args` stops at that call and returns what is handed to the final `self.parametric` (the
+    set-up arithmetic: the path function and its length), `m` follows the calls down to the final loop of `parametric`
+    (the vertices that loop walks), `m_moves` is the whole method (the points handed to `self._g.move`, in order);
+  * the loop that calls `self._g.move(p, **kwargs)` (the last statement of `parametric` and of `polyline`) is a fold like
+    any other loop, over the state (`self._g.position`, the list of points handed to `move` so far) besides the
+    variables its body assigns: the statement `self._g.move(p, **kwargs)` appends `p` to that list and replaces the
+    position by `moveEffect position p`.  `moveEffect` is a *parameter* of the `…_moves` functions (`GCodeCore.move` is
+    translated by `gen_motion.py`; the tie theorems state what they assume about it); inside the loop
+    `self._g.position` / `to_distance_mode` read the position reached so far.  In the variants `m` (vertices) the method
+    stops at that loop and returns what it walks (`parametric`: `(Point(*t) for t in points)`, `polyline`:
+    `self._g.to_absolute_list(targets)`);
+  * `np.copysign` and scipy's `CubicSpline(x, y)` (as the function `θ ↦ s(θ)`) are parameters (`np_copysign`, `CubicSpline`)
+    of the functions that use them - they are never given a meaning here.
 
 The subset understood (anything else makes the translator refuse with exit status 3 - it never guesses):
   statements   docstring; `x = e`; `x -= e`, `x += e`; `xs.append(e)`; `mask[i] = e`; `if c: … [else: …]` (a branch that
-               ends in `return` / `raise` / `continue` takes the rest of the block into the other branch, otherwise the
-               variables assigned in the branches are joined); `for x in xs:` / `for i, x in enumerate(xs):` without
-               `break` / `return` (a left fold over the variables assigned in the body); `continue`; `return e`;
-               `raise ValueError(...)` (message dropped); a nested `def f(thetas: np.ndarray)` made of assignments and
-               a `return`; a final `self.m(args, **kwargs)`
+               contains a `return` / `raise` / `continue` takes the rest of the block into both branches - every path is
+               followed to its end -, otherwise the variables assigned in the branches are joined; a variable first
+               assigned there must be assigned, with one type, by both branches); `for x in xs:` /
+               `for i, x in enumerate(xs):` without `break` / `return` (a left fold over the variables assigned in the
+               body); `continue`; `return e`; `raise ValueError(...)` (message dropped); a nested
+               `def f(thetas: np.ndarray)` made of assignments and a `return`; a final `self.m(args, **kwargs)`;
+               `self._g.move(p, **kwargs)` inside the final loop of a method (see above)
   expressions  names; numbers (`0 1 2 10` as scalars, decimal literals as `OfScientific` literals, ints as `Nat`/`Int`
                where an `int` is expected); `+ - * /` on scalars, `+ -` on resolved points, unary minus; `2 * math.pi`
                and `-2 * math.pi` (= `T.twoPi`, `-T.twoPi`: negation is exact); float * int (`ofInt`); comparisons
-               `< <= > >=` (`a >= b` is written `b ≤ a`); `self is Direction.CLOCKWISE`; `not`; `a if c else b`;
-               `p.x p.y p.z` of a resolved point; `len(p)`; `abs int max`; `Point(*p)`, `Point(a, b)`, `Point(a, b, c)`,
+               `< <= > >=` (`a >= b` is written `b ≤ a`); `==` / `!=` of two floats (`pyEq`: neither is less than the
+               other) and of two resolved points (`pyEqV3`), of two booleans, `direction == Direction.CLOCKWISE` (= `is`);
+               `and` / `or`; `x ** 2` (= `x * x`); `self is Direction.CLOCKWISE`; `not`; `a if c else b`;
+               `p.x p.y p.z` of a resolved point; `len(p)`, `len(xs)`; `abs int max`; a tuple `(a, b)` / `(a, b, c)` of
+               numbers (a `PointLike` of that length); `[p]`; `[e for c in xs]`, `(e for t in xs)` (`List.map`); `xs[-1]`
+               (`pyLast`); `np.copysign(a, b)`; `CubicSpline(x, y)` and `s(thetas)` of the result;
+               `Point(*p)` (of a resolved point / array row: the same three numbers), `Point(a, b)`, `Point(a, b, c)`,
                `.resolve()`, `.replace(*p)`; `np.hypot arctan2 cos sin sqrt isclose(…, rtol=…) column_stack linspace(0, 1, n)
                diff(…, axis=0) linalg.norm(…, axis=1) ones(len(…), dtype=bool) vstack([row, rows])`, `.sum()`, `.size`,
                `a[:-1] a[1:] a[0] a[mask]`, `enumerate`; `f(array)` for a path function (element-wise: `List.map`);
@@ -50,7 +65,8 @@ The subset understood (anything else makes the translator refuse with exit statu
 Assumptions (recorded in DESIGN §6 / REPORT): `@typechecked` enforces the annotations (`PointLike` = up to three optional
 numbers + its `len`, `int`, `float`); `**kwargs` only travel to `move`; numpy arithmetic on arrays is element-wise; the
 numpy / builtin primitives are the ones of `Model/TracerPrelude.lean`; `Point.resolve` / `Point.replace` are the model's
-`PL.resolve` / `PL.replaceIn` (tied at `Option Rat` by `PointTie_resolve` / `PointTie_replace`).
+`PL.resolve` / `PL.replaceIn` (tied at `Option Rat` by `PointTie_resolve` / `PointTie_replace`); `self._g.move` changes, of
+what the tracer reads, only `self._g.position`.
 
 usage: gen_tracer.py [repo_root] [--out FILE | --stdout]
 """
@@ -70,10 +86,6 @@ LEAN_KEYWORDS = {
     "unless", "return", "try", "catch", "finally", "nomatch", "nofun", "calc", "suffices", "this", "example", "abbrev",
     "inductive", "axiom", "opaque", "mut", "true", "false", "some", "none", "max", "min", "id", "T", "K", "Trig", "V3", "PL",
 }
-
-MOVE_LOOP = ("for point in (Point(*t) for t in points):\n"
-             "    point = self._g.to_distance_mode(point)\n"
-             "    self._g.move(point, **kwargs)\n")
 
 TRACER_CTX = "T g_direction g_is_relative g_position g_resolution"
 TRACER_SIG = "(T : Trig K) (g_direction g_is_relative : Bool) (g_position : PL K) (g_resolution : K)"
@@ -101,7 +113,7 @@ def lean_type(t) -> str:
         if t[0] == "list":
             inner = lean_type(t[1])
             return f"List {inner}" if inner.isidentifier() else f"List ({inner})"
-    return {"K": "K", "V3": "V3 K", "PL": "PL K", "Bool": "Bool", "Dir": "Bool", "Nat": "Nat", "Int": "Int", "Fn": "K → V3 K"}[t]
+    return {"K": "K", "V3": "V3 K", "PL": "PL K", "Bool": "Bool", "Dir": "Bool", "Nat": "Nat", "Int": "Int", "Fn": "K → V3 K", "Fn1": "K → K"}[t]
 
 
 def prod_type(parts) -> str:
@@ -133,6 +145,26 @@ def terminates(stmts) -> bool:
     if isinstance(last, ast.If):
         return terminates(last.body) and terminates(last.orelse)
     return False
+
+
+def exits(stmts) -> bool:
+    """does the block contain a return / raise / continue anywhere (nested functions aside)?"""
+    for st in stmts:
+        if isinstance(st, (ast.Return, ast.Raise, ast.Continue)):
+            return True
+        if isinstance(st, ast.If) and (exits(st.body) or exits(st.orelse)):
+            return True
+        if isinstance(st, ast.For) and (exits(st.body) or exits(st.orelse)):
+            return True
+    return False
+
+
+def is_move(node) -> bool:
+    return isinstance(node, ast.Call) and ast.unparse(node.func) == "self._g.move"
+
+
+def has_move(st) -> bool:
+    return any(is_move(n) for n in ast.walk(st))
 
 
 def assigned_names(stmts) -> list:
@@ -179,6 +211,10 @@ class Fn:
         self.ret = None            # type of the value (inside the Option when may_raise)
         self.sci = False           # uses a decimal literal (needs `OfScientific K`)
         self.len_params = []
+        self.local_len = {}        # local name bound to a tuple literal -> its `len`
+        self.extra = []            # primitives that stay parameters: CubicSpline, np_copysign, moveEffect
+        self.in_move_loop = False
+        self.has_moves = False
 
 
 class T:
@@ -272,6 +308,8 @@ class T:
         t, ty = self.expr(e, env, fn)
         if ty == "PL":
             ln = f"{t}_len" if isinstance(e, ast.Name) and e.id in fn.len_params else None
+            if isinstance(e, ast.Name) and e.id in fn.local_len:
+                ln = str(fn.local_len[e.id])
             return t, ln
         if ty == "V3":
             return f"(V3.toPL {t})", "3"          # a `Point` is a 3-tuple
@@ -324,6 +362,11 @@ class T:
             s = self.two_pi(e)
             if s:
                 return ("T.twoPi" if s > 0 else "(-T.twoPi)"), "K"
+            if isinstance(e.op, ast.Pow) and ast.unparse(e.right) == "2":
+                t, ty = self.expr(e.left, env, fn, "K")
+                if ty != "K":
+                    fail(e, f"square of {ty}")
+                return f"({t} * {t})", "K"                  # `x ** 2` is `x * x`
             sym = {ast.Add: "+", ast.Sub: "-", ast.Mult: "*", ast.Div: "/"}.get(type(e.op))
             if sym is None:
                 fail(e, f"operator in {ast.unparse(e)}")
@@ -346,6 +389,21 @@ class T:
                 if ty == "Dir":
                     return t, "Bool"
                 fail(e, f"`is Direction.CLOCKWISE` on {ty}")
+            if isinstance(op, (ast.Eq, ast.NotEq)):
+                neg = "!" if isinstance(op, ast.NotEq) else ""
+                if ast.unparse(b) == "Direction.CLOCKWISE":          # enum members are singletons: `==` is `is`
+                    t, ty = self.expr(a, env, fn)
+                    if ty == "Dir":
+                        return (f"(!{t})" if neg else t), "Bool"
+                    fail(e, f"`== Direction.CLOCKWISE` on {ty}")
+                ta, ya, tb, yb = self.pair(a, b, env, fn)
+                if ya == "K" and yb == "K":
+                    return f"({neg}pyEq {ta} {tb})", "Bool"
+                if ya == "V3" and yb == "V3":
+                    return f"({neg}pyEqV3 {ta} {tb})", "Bool"
+                if ya in ("Bool", "Prop") and yb in ("Bool", "Prop"):
+                    return f"({neg}({self.as_bool(ta, ya)} == {self.as_bool(tb, yb)}))", "Bool"
+                fail(e, f"`==` of {ya} with {yb}")
             ta, ya, tb, yb = self.pair(a, b, env, fn)
             if ya != yb or ya not in ("K", "Nat", "Int"):
                 fail(e, f"comparison of {ya} with {yb}")
@@ -353,6 +411,40 @@ class T:
             if form is None:
                 fail(e, f"operator in {ast.unparse(e)}")
             return f"({form})", "Prop"
+        if isinstance(e, ast.BoolOp):
+            parts = []
+            for v in e.values:
+                t, ty = self.expr(v, env, fn)
+                if ty not in ("Bool", "Prop"):
+                    fail(e, f"`and` / `or` of {ty}")
+                parts.append(self.as_bool(t, ty))
+            return "(" + (" || " if isinstance(e.op, ast.Or) else " && ").join(parts) + ")", "Bool"
+        if isinstance(e, ast.Tuple) and len(e.elts) in (2, 3):        # a tuple of numbers in a `PointLike` position
+            parts = []
+            for a in e.elts:
+                t, ty = self.expr(a, env, fn, "K")
+                if ty != "K":
+                    fail(e, f"tuple of {ty}")
+                parts.append(f"some {t}")
+            parts += ["none"] * (3 - len(parts))
+            return "(⟨" + ", ".join(parts) + "⟩ : PL K)", "PL"
+        if isinstance(e, ast.List) and len(e.elts) == 1:
+            t, ty = self.expr(e.elts[0], env, fn)
+            if ty != "V3":
+                fail(e, f"list literal of {ty}")
+            return f"[{t}]", ("list", ty)
+        if isinstance(e, (ast.ListComp, ast.GeneratorExp)):
+            if len(e.generators) != 1 or e.generators[0].ifs or e.generators[0].is_async \
+                    or not isinstance(e.generators[0].target, ast.Name):
+                fail(e, "comprehension")
+            it, ity = self.expr(e.generators[0].iter, env, fn)
+            if not (isinstance(ity, tuple) and ity[0] == "list" and isinstance(ity[1], str)):
+                fail(e, f"comprehension over {ity}")
+            x = e.generators[0].target.id
+            t, ty = self.expr(e.elt, dict(env, **{x: ity[1]}), fn)
+            if not isinstance(ty, str) or ty in ("Prop", "Fn", "Fn1"):
+                fail(e, f"comprehension of {ty}")
+            return f"(List.map (fun ({mangle(x)} : {lean_type(ity[1])}) => {t}) {it})", ("list", ty)
         if isinstance(e, ast.IfExp):
             c, cty = self.expr(e.test, env, fn)
             if cty not in ("Bool", "Prop"):
@@ -372,6 +464,8 @@ class T:
                 return f"(List.drop 1 {t})", ty
             if s == "0" and ty == ("list", "V3"):
                 return f"(npRow {t} 0)", "V3"
+            if s == "-1" and ty == ("list", "V3"):
+                return f"(pyLast {t})", "V3"
             if isinstance(e.slice, ast.Name):
                 m, mty = self.expr(e.slice, env, fn)
                 if mty == ("list", "Bool"):
@@ -412,6 +506,19 @@ class T:
                 fail(e, "np.isclose on non-scalars")
             fn.sci = True
             return f"(npIsClose {r} {a} {b})", "Bool"
+        if f == "np.copysign":
+            a, b = self.args_k(e, 2, env, fn)
+            self.need(fn, "np_copysign")
+            return f"(np_copysign {a} {b})", "K"
+        if f == "CubicSpline":
+            if len(e.args) != 2 or kw:
+                fail(e, "CubicSpline(x, y) expected")
+            a, ya = self.expr(e.args[0], env, fn)
+            b, yb = self.expr(e.args[1], env, fn)
+            if ya != ("list", "K") or yb != ("list", "K"):
+                fail(e, f"CubicSpline of {ya}, {yb}")
+            self.need(fn, "CubicSpline")
+            return f"(CubicSpline {a} {b})", "Fn1"
         if f == "abs":
             (a,) = self.args_k(e, 1, env, fn)
             return f"(pyAbs {a})", "K"
@@ -493,6 +600,8 @@ class T:
                 fail(e, "Point with keywords")
             if len(e.args) == 1 and isinstance(e.args[0], ast.Starred):
                 t, ty = self.expr(e.args[0].value, env, fn)
+                if ty == "V3":                    # a row of an (N, 3) array / a resolved point: the same three numbers
+                    return t, "V3"
                 if ty != "PL":
                     fail(e, f"Point(*p) of {ty}")
                 return t, "PL"
@@ -551,7 +660,21 @@ class T:
                 return f"(List.map {mangle(e.func.id)} {t})", ("list", "V3")
             if ty == "K":
                 return f"({mangle(e.func.id)} {t})", "V3"
+        if isinstance(e.func, ast.Name) and env.get(e.func.id) == "Fn1" and len(e.args) == 1 and not kw:
+            t, ty = self.expr(e.args[0], env, fn)
+            if ty == "K":
+                return f"({mangle(e.func.id)} {t})", "K"
         fail(e, f"call {ast.unparse(e)[:60]}")
+
+    EXTRAS = {"CubicSpline": "List K → List K → K → K", "np_copysign": "K → K → K", "moveEffect": "PL K → V3 K → PL K"}
+
+    def need(self, fn, name):
+        if name not in fn.extra:
+            fn.extra.append(name)
+
+    @staticmethod
+    def as_bool(t, ty):
+        return f"decide {t}" if ty == "Prop" else t
 
     def apply(self, e, callee, env, fn):
         """call of a translated PathTracer method -> (text, type of its value)"""
@@ -585,7 +708,10 @@ class T:
         fn.sci = fn.sci or callee.sci
         name = f"PathTracer.{callee.node.name}{callee.variant}"
         ty = ("opt", callee.ret) if callee.may_raise else callee.ret
-        return f"({name} {TRACER_CTX} " + " ".join(parts) + ")", ty
+        for x in callee.extra:
+            self.need(fn, x)
+        ctx = " ".join([x for x in self.EXTRAS if x in callee.extra] + [TRACER_CTX])
+        return f"({name} {ctx} " + " ".join(parts) + ")", ty
 
     # ------------------------------------------------------------------ statements
     def block(self, stmts, env, fn, ind, fall):
@@ -598,9 +724,14 @@ class T:
             return self.block(rest, env, fn, ind, fall)
         if isinstance(st, ast.Assign) and len(st.targets) == 1 and isinstance(st.targets[0], ast.Name):
             name = st.targets[0].id
+            if name in fn.len_params:
+                fail(st, f"{name} is rebound but its len() is read")
             t, ty = self.expr(st.value, env, fn, env.get(name) if self.is_num(st.value) else None)
             if ty == "Prop":
                 t, ty = f"decide {t}", "Bool"
+            fn.local_len.pop(name, None)
+            if isinstance(st.value, ast.Tuple):
+                fn.local_len[name] = len(st.value.elts)
             return [f"{pad}let {mangle(name)} : {lean_type(ty)} := {t}"] + self.block(rest, dict(env, **{name: ty}), fn, ind, fall)
         if isinstance(st, ast.Assign) and len(st.targets) == 1 and isinstance(st.targets[0], ast.Subscript) \
                 and isinstance(st.targets[0].value, ast.Name):
@@ -656,19 +787,23 @@ class T:
             if cty not in ("Bool", "Prop"):
                 fail(st, f"condition of type {cty}")
             tb, te = terminates(st.body), terminates(st.orelse)
-            if tb or te:
+            if tb or te or exits(st.body) or exits(st.orelse):
                 body = st.body + ([] if tb else rest)
                 orelse = st.orelse + ([] if te else rest)
                 return ([f"{pad}if {c} then"] + self.block(body, env, fn, ind + 1, fall)
                         + [f"{pad}else"] + self.block(orelse, env, fn, ind + 1, fall))
+            if any(has_move(x) for x in st.body + st.orelse):
+                fail(st, "self._g.move inside a conditional")
             names = [n for n in assigned_names(st.body + st.orelse)]
             for n in names:
-                if n not in env:
-                    fail(st, f"{n} is first assigned inside a conditional")
+                if n not in env and not (n in assigned_names(st.body) and n in assigned_names(st.orelse)):
+                    fail(st, f"{n} is first assigned inside one branch of a conditional")
             tys = {}
 
             def join(env2, ind2):
                 for n in names:
+                    if n not in env2 or tys.get(n, env2[n]) != env2[n]:
+                        fail(st, f"{n} is not given one type by both branches of the conditional")
                     tys[n] = env2[n]
                 return ["  " * ind2 + tuple_of([mangle(n) for n in names])]
 
@@ -681,12 +816,36 @@ class T:
             if len(names) > 1:
                 lines += [f"{pad}let {mangle(n)} : {lean_type(env2[n])} := {proj(jn, i, len(names))}" for i, n in enumerate(names)]
             return lines + self.block(rest, env2, fn, ind, fall)
+        if isinstance(st, ast.Expr) and is_move(st.value):
+            call = st.value
+            if not fn.in_move_loop:
+                fail(st, "self._g.move outside the final loop of the method")
+            if len(call.args) != 1 or [ast.unparse(k.value) for k in call.keywords if k.arg is None] != ["kwargs"] \
+                    or any(k.arg is not None for k in call.keywords):
+                fail(st, "self._g.move(point, **kwargs) expected")
+            t, ty = self.expr(call.args[0], env, fn)
+            if ty != "V3":
+                fail(st, f"self._g.move of {ty}")
+            return [f"{pad}-- line {st.lineno}: self._g.move({ast.unparse(call.args[0])}, **kwargs)",
+                    f"{pad}let moves' : List (V3 K) := moves' ++ [{t}]",
+                    f"{pad}let g_position : PL K := moveEffect g_position {t}"] + self.block(rest, env, fn, ind, fall)
         if isinstance(st, ast.For):
-            if fn.cls == "PathTracer" and fn.node.name == "parametric" and not rest \
-                    and ast.dump(st) == ast.dump(ast.parse(MOVE_LOOP).body[0]) and env.get("points") == ("list", "V3"):
+            if has_move(st):
+                # the loop that hands the vertices to `self._g.move`: the last statement of the method
+                if rest or fn.in_loop or fn.cls != "PathTracer" or fn.has_moves or fn.variant == "_args":
+                    fail(st, "a loop calling self._g.move must be the last statement of the method")
+                if fn.variant == "_moves":
+                    fn.has_moves = True
+                    self.need(fn, "moveEffect")
+                    self.set_ret(fn, ("list", "V3"), st)
+                    return self.loop(st, rest, env, fn, ind, fall, moves=True)
+                # the vertices variant stops here: what the loop walks
+                it, ity = self.expr(st.iter, env, fn)
+                if ity != ("list", "V3"):
+                    fail(st, f"the move loop walks {ity}")
                 self.set_ret(fn, ("list", "V3"), st)
-                return [f"{pad}-- line {st.lineno}: every `Point(*t)` of `points` goes through `to_distance_mode` to `self._g.move`",
-                        f"{pad}some points"]
+                return [f"{pad}-- line {st.lineno}: what the final loop (to_distance_mode, self._g.move) walks",
+                        f"{pad}{'some ' if fn.may_raise else ''}{it}"]
             return self.loop(st, rest, env, fn, ind, fall)
         if isinstance(st, ast.Expr) and isinstance(st.value, ast.Call) and not rest and not fn.in_loop \
                 and ast.unparse(st.value.func) in ("self.parametric", "self.arc", "self.helix"):
@@ -716,9 +875,9 @@ class T:
             if not fn.may_raise:
                 fail(call, "a path set-up that cannot raise")       # keeps the `some` below honest
             return [f"{pad}-- line {call.lineno}: handed to `self.parametric`", f"{pad}some ({f}, {ln})"]
-        callee = self.done.get(f"PathTracer.{m}{fn.variant if m != 'parametric' else ''}")
+        callee = self.done.get(f"PathTracer.{m}{fn.variant}")
         if callee is None:
-            fail(call, f"{m} is not translated yet")
+            fail(call, f"{m}{fn.variant} is not translated yet")
         t, ty = self.apply(call, callee, env, fn)
         if not (isinstance(ty, tuple) and ty[0] == "opt"):
             fail(call, "final call of a method that cannot raise")
@@ -750,7 +909,7 @@ class T:
             fail(st, f"local function returns {ty}")
         return lines + [f"{pad}  {t}"]
 
-    def loop(self, st, rest, env, fn, ind, fall):
+    def loop(self, st, rest, env, fn, ind, fall, moves=False):
         pad = "  " * ind
         if st.orelse:
             fail(st, "for … else")
@@ -768,7 +927,7 @@ class T:
         else:
             fail(st, f"loop target {ast.unparse(st.target)} over {el}")
         names = [n for n in assigned_names(st.body) if n in env]
-        if not names:
+        if not names and not moves:
             fail(st, "a loop that assigns nothing")
         # `results = []` gets its element type from the first append in the body
         env = dict(env)
@@ -783,29 +942,38 @@ class T:
                         break
                 if env[n] == ("list", None):
                     fail(st, f"cannot type the list {n}")
-        tupty = lean_type(env[names[0]]) if len(names) == 1 else prod_type([lean_type(env[n]) for n in names])
+        # the loop-carried state: (the builder's position and the points handed to `move`, for the move loop,) then the
+        # variables assigned in the body
+        state = ([("g_position", "PL"), ("moves'", ("list", "V3"))] if moves else []) + [(mangle(n), env[n]) for n in names]
+        snames = [x for x, _ in state]
+        tupty = lean_type(state[0][1]) if len(state) == 1 else prod_type([lean_type(ty) for _, ty in state])
         inner = dict(env, **{b[0]: b[1] for b in binds})
-        was = fn.in_loop
-        fn.in_loop = True
+        was, wasm = fn.in_loop, fn.in_move_loop
+        fn.in_loop, fn.in_move_loop = True, moves
 
         def again(env2, ind2):
             for n in names:
                 if env2[n] != env[n]:
                     fail(st, f"{n} changes type inside the loop")
-            return ["  " * ind2 + tuple_of([mangle(n) for n in names])]
+            return ["  " * ind2 + tuple_of(snames)]
 
         body = self.block(st.body, inner, fn, ind + 2, again)
-        fn.in_loop = was
-        lines = [f"{pad}-- line {st.lineno}: for {ast.unparse(st.target)} in {ast.unparse(st.iter)}",
-                 f"{pad}let s' : {tupty} := List.foldl (fun (s' : {tupty}) (x' : {lean_type(el)}) =>"]
-        if len(names) > 1:
-            lines += [f"{pad}    let {mangle(n)} : {lean_type(env[n])} := {proj(chr(115) + chr(39), i, len(names))}" for i, n in enumerate(names)]
+        fn.in_loop, fn.in_move_loop = was, wasm
+        lines = [f"{pad}-- line {st.lineno}: for {ast.unparse(st.target)} in {ast.unparse(st.iter)}"]
+        if moves:
+            lines += [f"{pad}--   (`self._g.move(p, **kwargs)`: `p` is recorded in moves', `self._g.position` becomes `moveEffect g_position p`)",
+                      f"{pad}let moves' : List (V3 K) := []"]
+        lines += [f"{pad}let s' : {tupty} := List.foldl (fun (s' : {tupty}) (x' : {lean_type(el)}) =>"]
+        if len(state) > 1:
+            lines += [f"{pad}    let {x} : {lean_type(ty)} := {proj(chr(115) + chr(39), i, len(state))}" for i, (x, ty) in enumerate(state)]
         else:
-            lines += [f"{pad}    let {mangle(names[0])} : {tupty} := s'"]
+            lines += [f"{pad}    let {snames[0]} : {tupty} := s'"]
         lines += [f"{pad}    let {mangle(b[0])} : {lean_type(b[1])} := {b[2]}" for b in binds]
         lines += body
-        lines += [f"{pad}  ) {tuple_of([mangle(n) for n in names])} {it}"]
-        lines += [f"{pad}let {mangle(n)} : {lean_type(env[n])} := {proj(chr(115) + chr(39), i, len(names))}" for i, n in enumerate(names)]
+        lines += [f"{pad}  ) {tuple_of(snames)} {it}"]
+        lines += [f"{pad}let {x} : {lean_type(ty)} := {proj(chr(115) + chr(39), i, len(state))}" for i, (x, ty) in enumerate(state)]
+        if moves:
+            return lines + [f"{pad}{'some ' if fn.may_raise else ''}moves'"]
         return lines + self.block(rest, env, fn, ind, fall)
 
     def append_type(self, body, call, env, fn):
@@ -869,6 +1037,8 @@ class T:
             fn.may_raise = True
         env = {}
         sig = {"Direction": "(T : Trig K) (self : Bool)", "Point": "(self : V3 K)", "GCodeCore": CORE_SIG, "PathTracer": TRACER_SIG}[cls]
+        if variant == "_moves":
+            self.need(fn, "moveEffect")
         if cls == "Direction":
             env["self"] = "Dir"
         if cls == "Point":
@@ -896,10 +1066,15 @@ class T:
         rty = ("opt", fn.ret) if fn.may_raise else fn.ret
         lname = lean_name or f"{cls}.{name}{variant}"
         rel = {"Direction": "enums/types/direction.py", "Point": "geometry/point.py", "GCodeCore": "gcode_core.py", "PathTracer": "geometry/tracer.py"}[cls]
-        what = {"": "", "_args": " up to its final call: what is handed to `self.parametric`"}[variant]
+        what = {"": " up to its final loop: the vertices handed, one by one, to `to_distance_mode` and `self._g.move`"
+                    if (cls == "PathTracer" and has_move(node)) else
+                    (": the vertices of the whole path" if fn.may_raise and isinstance(last, ast.Expr) else ""),
+                "_args": " up to its final call: what is handed to `self.parametric`",
+                "_moves": ", the whole method: the points handed to `self._g.move`, in order"}[variant]
         sci = " [OfScientific K]" if fn.sci else ""
+        extra = "".join(f" ({x} : {ty})" for x, ty in self.EXTRAS.items() if x in fn.extra)
         self.out.append(f"/-- `{cls}.{name}`{what} (gscrib/{rel} line {node.lineno}) -/\n"
-                        f"def {lname}{sci} {sig} : {lean_type(rty)} :=\n" + "\n".join(lines) + "\n")
+                        f"def {lname}{sci}{extra} {sig} : {lean_type(rty)} :=\n" + "\n".join(lines) + "\n")
         self.done[lname] = fn
         return fn
 
@@ -957,8 +1132,11 @@ class T:
         self.function("PathTracer", "_filter_segments")
         self.function("PathTracer", "estimate_length")
         self.function("PathTracer", "parametric")
-        for variant in ("_args", ""):
-            for m in ("arc", "circle", "helix", "thread", "spiral"):
+        self.function("PathTracer", "parametric", "_moves")
+        self.function("PathTracer", "polyline")
+        self.function("PathTracer", "polyline", "_moves")
+        for variant in ("_args", "", "_moves"):
+            for m in ("arc", "arc_radius", "circle", "helix", "thread", "spiral", "spline"):
                 self.function("PathTracer", m, variant)
         head = ["/- GENERATED by tools/gen_tracer.py from gscrib/geometry/tracer.py, gscrib/enums/types/direction.py, "
                 "gscrib/gcode_core.py, gscrib/geometry/point.py (source text, by AST). Do not edit. -/",
